@@ -95,6 +95,16 @@ impl UnitResult {
             self.samples.push(v);
         }
     }
+    /// stream what has been gathered so far to the supervisor (so that a later death of the
+    /// worker inside this unit does not lose it) and start afresh
+    pub fn flush_partial(&mut self, unit: u64) {
+        crate::supervisor::emit(&format!("P {}", self.to_json(unit)));
+        let samples_seen = !self.samples.is_empty();
+        *self = UnitResult::default();
+        if samples_seen {
+            self.samples.push(serde_json::Value::Null);
+        }
+    }
     pub fn to_json(&self, unit: u64) -> Value {
         json!({
             "unit": unit,
@@ -103,7 +113,7 @@ impl UnitResult {
             "dbc": self.distinct_by_construction,
             "features": self.features,
             "failures": self.failures.iter().map(|f| json!({"class": f.class, "detail": f.detail})).collect::<Vec<_>>(),
-            "samples": self.samples,
+            "samples": self.samples.iter().filter(|s| !s.is_null()).collect::<Vec<_>>(),
             "maxima": self.maxima,
             "sums": self.sums,
         })
@@ -130,6 +140,10 @@ pub trait Prop: Sync {
     /// sub-spaces this tier enumerates completely (text for the evidence file)
     fn exhaustive(&self, _tier: Tier) -> Option<String> {
         None
+    }
+    /// CPU budget of one monitored phase (seconds); exceeding it is a `cpu` fault
+    fn cpu_limit_s(&self, _tier: Tier) -> u64 {
+        30
     }
     /// wall-clock budget for the whole run (seconds); exceeding it is `inconclusive`
     fn wall_budget_s(&self, tier: Tier) -> u64 {
